@@ -568,7 +568,8 @@ Inductive event_bad (ds : list decl) (evs : list event) : nat -> err -> Prop :=
 | eb_arity ei rel n d : nth_error evs ei = Some (EvRel rel n) -> lookup_rel ds rel = Some d -> length (d_tys d) <> n ->
     event_bad ds evs ei (EArity rel (length (d_tys d)) n)
 | eb_shadow ei x : nth_error evs ei = Some (EvBind x) -> In x (event_vars (firstn ei evs)) ->
-    event_bad ds evs ei (EShadow x).
+    event_bad ds evs ei (EShadow x)
+| eb_aggvar ei x rel : nth_error evs ei = Some (EvAggMissing x rel) -> event_bad ds evs ei (EAggVar x rel).
 
 Lemma event_vars_app a b : event_vars (a ++ b) = event_vars a ++ event_vars b.
 Proof. unfold event_vars; apply flat_map_app. Qed.
@@ -582,7 +583,7 @@ Proof. induction a; simpl; auto. Qed.
 Lemma scan_events_no_panic ds ri k g evs : scan_events ds ri k g evs <> Panic.
 Proof.
   revert k g; induction evs as [|ev tl IH]; intros k g; simpl; [discriminate|].
-  destruct ev as [x|x|r n]; [apply IH | destruct (mem x g); [discriminate | apply IH] |].
+  destruct ev as [x|x|r n|x r]; [apply IH | destruct (mem x g); [discriminate | apply IH] | | discriminate].
   destruct (lookup_rel ds r); [| discriminate]. destruct (_ =? _); [apply IH | discriminate].
 Qed.
 
@@ -595,7 +596,7 @@ Proof.
             scan_events ds ri (S (length pre)) g' tl = Err e l -> exists ei, l = (3, ri, ei) /\ event_bad ds (pre ++ ev :: tl) ei e).
   { intros g' Hg' H. replace (S (length pre)) with (length (pre ++ [ev])) in H by (rewrite app_length; simpl; lia).
     destruct (IH _ _ Hg' H) as [ei [-> Hb]]. exists ei; split; [reflexivity|]. now rewrite <- app_assoc in Hb. }
-  destruct ev as [x|x|r n].
+  destruct ev as [x|x|r n|x r]; [| | | intros H; injection H as <- <-; exists (length pre); split; [reflexivity | apply eb_aggvar; apply nth_error_length_app]].
   - apply Hstep. intros y; rewrite event_vars_app; simpl. rewrite in_app_iff; simpl. rewrite <- Hg. tauto.
   - destruct (mem x g) eqn:M.
     + intros H; injection H as <- <-. exists (length pre); split; [reflexivity|].
@@ -622,21 +623,21 @@ Proof.
     { intros g' Hg' Hne. replace (S (length pre)) with (length (pre ++ [ev])) by (rewrite app_length; simpl; lia).
       apply IH; [exact Hg' | rewrite app_length; simpl; lia | now rewrite <- app_assoc]. }
     assert (Hhere : length pre = ei -> nth_error (pre ++ ev :: tl) ei = Some ev) by (intros <-; apply nth_error_length_app).
-    simpl. destruct ev as [x|x|r n].
+    simpl. destruct ev as [x|x|r n|x r]; [| | | eexists; exists (length pre); split; [exact Hle | reflexivity]].
     + apply Hstep.
       * intros y; rewrite event_vars_app; simpl. rewrite in_app_iff; simpl. rewrite <- Hg. tauto.
       * intros Heq. specialize (Hhere Heq). destruct Hb; congruence.
     + destruct (mem x g) eqn:M; [exists (EShadow x), (length pre); split; [exact Hle | reflexivity]|].
       apply Hstep.
       * intros y; rewrite event_vars_app; simpl. rewrite in_app_iff; simpl. rewrite <- Hg. tauto.
-      * intros Heq. specialize (Hhere Heq). destruct Hb as [ei r n H1 _ | ei r n d H1 _ _ | ei y H1 H2]; try congruence.
+      * intros Heq. specialize (Hhere Heq). destruct Hb as [ei r n H1 _ | ei r n d H1 _ _ | ei y H1 H2 | ei y r H1]; try congruence.
         rewrite Hhere in H1; injection H1 as <-. subst ei. rewrite firstn_length_app in H2. apply Hg in H2. apply mem_In in H2; congruence.
     + destruct (lookup_rel ds r) as [d|] eqn:L.
       * destruct (length (d_tys d) =? n) eqn:N; [| eexists; exists (length pre); split; [exact Hle | reflexivity]].
         apply Hstep.
         -- intros y; rewrite event_vars_app; simpl. rewrite app_nil_r. apply Hg.
         -- intros Heq. specialize (Hhere Heq). apply Nat.eqb_eq in N.
-           destruct Hb as [ei r' n' H1 H2 | ei r' n' d' H1 H2 H3 | ei y H1 H2]; rewrite Hhere in H1; try discriminate;
+           destruct Hb as [ei r' n' H1 H2 | ei r' n' d' H1 H2 H3 | ei y H1 H2 | ei y r' H1]; rewrite Hhere in H1; try discriminate;
              injection H1 as <- <-; congruence.
       * eexists; exists (length pre); split; [exact Hle | reflexivity].
 Qed.
@@ -1022,7 +1023,8 @@ Inductive violation :=
                                       include_source! inside an ascent_source! *)
 | VMacro (ri : nat) (e : err)      (* rule ri: undefined macro, wrong number of arguments, body that does not parse at
                                       the invocation position, nesting deeper than the guard (self-referential macro) *)
-| VRule (ri ei : nat) (e : err)    (* event ei of rule ri: undeclared relation, wrong arity, rebinding of a bound variable *)
+| VRule (ri ei : nat) (e : err)    (* event ei of rule ri: undeclared relation, wrong arity, rebinding of a bound variable,
+                                      aggregated variable that is not an argument of the aggregated relation *)
 | VAttr (j : nat) (e : err)        (* program attributes: unknown (0), inter_rule_parallelism outside a parallel macro (1), several ds (2) *)
 | VDecl (di j : nat) (e : err)     (* surviving declaration di: several ds (0), ds on a lattice (1) *)
 | VStrat (a rel : nat).            (* rule a aggregates / negates rel inside rel's own recursive stratum *)
@@ -1226,17 +1228,22 @@ Proof.
 Qed.
 
 Definition arg_plain (a : arg ident) : bool := match a with AVar (Suf _ _) => false | _ => true end.
-Definition agg_closed (bound : list ident) (args : list (aarg ident)) : bool :=
-  forallb (fun b => existsb (is_gvar b) args) bound.
-(* no clause argument is an identifier ending in "_" / "_<number>", and every aggregated variable is an argument of the
-   aggregated relation *)
+(* no clause argument is an identifier ending in "_" / "_<number>" *)
 Definition xitem_ok (it : sitem ident) : bool :=
   match it with
   | SClause _ args _ => forallb arg_plain args
-  | SAgg _ bound _ args => agg_closed bound args
   | _ => true
   end.
 Definition xrule_ok (r : xrule) : bool := forallb xitem_ok (x_body r).
+
+(* the two sources of a panic, separately *)
+Definition clause_panics (ds : list decl) (pre : list ident) (it : citem) : bool :=
+  match it with CClause rel args _ => negb (is_lattice ds rel) && dup_new pre [] args | _ => false end.
+Definition agg_panics (it : citem) : bool :=
+  match it with CAgg _ bound _ args => negb (length (agg_missing bound args) =? 0) | _ => false end.
+
+Lemma item_panics_split ds pre it : item_panics ds pre it = clause_panics ds pre it || agg_panics it.
+Proof. destruct it; simpl; [now rewrite orb_false_r | reflexivity | reflexivity]. Qed.
 
 Lemma cget_cons p n cnt q : cget ((p, n) :: cnt) q = if ident_eqb p q then n else cget cnt q.
 Proof. unfold cget; simpl. destruct (ident_eqb p q); reflexivity. Qed.
@@ -1310,19 +1317,30 @@ Proof.
   - intros H; apply IH in H as [H | H]; auto.
 Qed.
 
-Lemma ds_body_no_panic ds : forall its pre seen cnt, (forall x, In x seen -> In x pre) -> forallb xitem_ok its = true ->
-  body_panics ds pre (fst (ds_body (seen, cnt) its)) = false.
+Fixpoint body_clause_panics (ds : list decl) (pre : list ident) (its : list citem) : bool :=
+  match its with
+  | [] => false
+  | it :: tl => clause_panics ds pre it || body_clause_panics ds (pre ++ item_binds it) tl
+  end.
+
+Lemma body_panics_split ds its : forall pre, body_panics ds pre its = body_clause_panics ds pre its || existsb agg_panics its.
+Proof.
+  induction its as [|it tl IH]; intros pre; simpl; [reflexivity|]. rewrite IH, item_panics_split.
+  destruct (clause_panics ds pre it), (agg_panics it), (body_clause_panics ds (pre ++ item_binds it) tl); reflexivity.
+Qed.
+
+Lemma ds_body_no_clause_panic ds : forall its pre seen cnt, (forall x, In x seen -> In x pre) -> forallb xitem_ok its = true ->
+  body_clause_panics ds pre (fst (ds_body (seen, cnt) its)) = false.
 Proof.
   induction its as [|it tl IH]; intros pre seen cnt Hsub Hok; [reflexivity|].
   simpl in Hok. apply andb_true_iff in Hok as [Hit Hok]. simpl.
   apply orb_false_iff; split.
   - destruct it as [rel args conds|rel n|pat bound rel args|c|bs|m margs]; simpl; try reflexivity.
-    + simpl in Hit. rewrite (ds_args_no_dup pre seen Hsub args [] cnt [] Hit) by (intros v []). apply andb_false_r.
-    + simpl in Hit. unfold agg_closed in Hit. apply not_true_is_false. intros H. apply existsb_exists in H as [b [Hb Hn]].
-      rewrite forallb_forall in Hit. rewrite (Hit b Hb) in Hn. discriminate.
+    simpl in Hit. rewrite (ds_args_no_dup pre seen Hsub args [] cnt [] Hit) by (intros v []). apply andb_false_r.
   - destruct it as [rel args conds|rel n|pat bound rel args|c|bs|m margs]; simpl; apply IH; try exact Hok; intros x Hx.
     + apply in_app_iff in Hx as [Hx | Hx]; [apply in_or_app; left; auto|].
-      apply ds_args_here in Hx as [[] | Hx]. apply in_or_app; right. simpl. apply in_or_app; now left.
+      apply in_or_app; right. simpl. apply in_app_iff in Hx as [Hx | Hx]; apply in_or_app; [left | right; exact Hx].
+      apply ds_args_here in Hx as [[] | Hx]. exact Hx.
     + apply in_or_app; left; auto.
     + apply in_app_iff in Hx as [Hx | Hx]; apply in_or_app; [left; auto | right; exact Hx].
     + apply in_app_iff in Hx as [Hx | Hx]; apply in_or_app; [left; auto | right; exact Hx].
@@ -1330,23 +1348,52 @@ Proof.
     + apply in_or_app; left; auto.
 Qed.
 
-Lemma ds_rules_no_panic ds : forall xr cnt, forallb xrule_ok xr = true -> codegen_panics ds (ds_rules cnt xr) = false.
+(* the unwrap on the aggregated variables cannot fail once the rule stage has passed (check of commit 9b40028) *)
+Lemma In_nth_error_ex {A} (x : A) l : In x l -> exists i, nth_error l i = Some x.
+Proof. induction l as [|y tl IH]; [intros [] | intros [-> | H]; [exists 0; reflexivity | destruct (IH H) as [i Hi]; exists (S i); exact Hi]]. Qed.
+
+Lemma check_rules_OK_no_agg_panic ds rs : check_rules ds rs = OK tt -> forall r, In r rs -> existsb agg_panics (c_body r) = false.
 Proof.
-  induction xr as [|r tl IH]; intros cnt Hok; [reflexivity|].
-  simpl in Hok. apply andb_true_iff in Hok as [Hr Hok]. unfold codegen_panics; simpl.
-  apply orb_false_iff; split; [| apply IH; exact Hok].
-  apply ds_body_no_panic; [intros x [] | exact Hr].
+  intros Hok r Hr. apply not_true_is_false. intros H. apply existsb_exists in H as [it [Hit Hp]].
+  destruct it as [rel args cb|pat bound rel args|bs]; simpl in Hp; try discriminate.
+  destruct (agg_missing bound args) as [|b tl] eqn:M; [discriminate|].
+  assert (Hev : In (EvAggMissing b rel) (rule_events r)).
+  { unfold rule_events. apply in_or_app; left. apply in_flat_map. exists (CAgg pat bound rel args); split; [exact Hit|].
+    simpl. apply in_or_app; right; right. rewrite M. now left. }
+  apply In_nth_error_ex in Hev as [ei Hei]. apply In_nth_error_ex in Hr as [ri Hri].
+  destruct (check_rules_complete ds rs ri r ei (EAggVar b rel) Hri (eb_aggvar ds _ ei b rel Hei)) as [e' [l' [H1 _]]]. congruence.
 Qed.
 
-(* the macro-expanded program uses no identifier ending in "_" / "_<number>" as a clause argument and aggregates only
-   variables that are arguments of the aggregated relation *)
+Lemma ds_rules_no_clause_panic ds : forall xr cnt, forallb xrule_ok xr = true ->
+  forall r, In r (ds_rules cnt xr) -> body_clause_panics ds [] (c_body r) = false.
+Proof.
+  induction xr as [|x tl IH]; intros cnt Hok r Hr; [destruct Hr|].
+  simpl in Hok. apply andb_true_iff in Hok as [Hx Hok]. simpl in Hr. destruct Hr as [<- | Hr].
+  - simpl. apply ds_body_no_clause_panic; [intros y [] | exact Hx].
+  - eapply IH; eauto.
+Qed.
+
+(* the macro-expanded program uses no identifier ending in "_" / "_<number>" as a clause argument *)
 Definition panic_guard (P : program) : Prop :=
   forall its xr, flatten 0 (p_items P) = OK its -> expand_rules (macros_of its) (rules_of its) = OK xr -> forallb xrule_ok xr = true.
 
 Theorem no_panic_guarded c0 P k : panic_guard P -> check_loc c0 P k <> Panic.
 Proof.
-  intros G H. apply check_loc_panic in H as [its [xr [H1 [H2 [_ [_ [_ [_ H7]]]]]]]].
-  rewrite (ds_rules_no_panic (decls_of its) xr c0 (G its xr H1 H2)) in H7. discriminate.
+  intros G H. apply check_loc_panic in H as [its [xr [H1 [H2 [H3 [_ [_ [_ H7]]]]]]]].
+  unfold codegen_panics in H7. apply existsb_exists in H7 as [r [Hr Hp]].
+  rewrite body_panics_split in Hp.
+  rewrite (ds_rules_no_clause_panic (decls_of its) xr c0 (G its xr H1 H2) r Hr) in Hp.
+  rewrite (check_rules_OK_no_agg_panic _ _ H3 r Hr) in Hp. discriminate.
+Qed.
+
+(* whatever the program: the aggregate unwrap of code generation is never the reason of a panic *)
+Theorem panic_is_a_clause_panic c0 P k : check_loc c0 P k = Panic ->
+  exists its xr r, flatten 0 (p_items P) = OK its /\ expand_rules (macros_of its) (rules_of its) = OK xr /\
+    In r (ds_rules c0 xr) /\ body_clause_panics (decls_of its) [] (c_body r) = true.
+Proof.
+  intros H. apply check_loc_panic in H as [its [xr [H1 [H2 [H3 [_ [_ [_ H7]]]]]]]].
+  unfold codegen_panics in H7. apply existsb_exists in H7 as [r [Hr Hp]].
+  rewrite body_panics_split, (check_rules_OK_no_agg_panic _ _ H3 r Hr), orb_false_r in Hp. exists its, xr, r; auto.
 Qed.
 
 (* ------------------------------------------------------------------ attributes of a relation other than ds are ignored
@@ -1398,7 +1445,7 @@ Qed.
 Lemma scan_events_strip ds ri ei g evs : scan_events (map strip_decl ds) ri ei g evs = scan_events ds ri ei g evs.
 Proof.
   revert ei g; induction evs as [|ev tl IH]; intros ei g; simpl; [reflexivity|].
-  destruct ev as [x|x|r n]; [apply IH | destruct (mem x g); [reflexivity | apply IH] |].
+  destruct ev as [x|x|r n|x r]; [apply IH | destruct (mem x g); [reflexivity | apply IH] | | reflexivity].
   rewrite lookup_rel_strip. destruct (lookup_rel ds r); simpl; [| reflexivity]. destruct (_ =? _); [apply IH | reflexivity].
 Qed.
 
@@ -1496,6 +1543,11 @@ Proof.
   intros W G. destruct (well_formed_verdict c0 P k W) as [H | H]; [exact H|].
   apply check_Panics in H. now apply no_panic_guarded in H.
 Qed.
+
+Theorem panic_is_a_clause_panic_v c0 P k : check c0 P k = Panics ->
+  exists its xr r, flatten 0 (p_items P) = OK its /\ expand_rules (macros_of its) (rules_of its) = OK xr /\
+    In r (ds_rules c0 xr) /\ body_clause_panics (decls_of its) [] (c_body r) = true.
+Proof. intros H; apply check_Panics in H. exact (panic_is_a_clause_panic c0 P k H). Qed.
 
 Theorem panics_only_when_checks_pass_v c0 P k : check c0 P k = Panics -> well_formed c0 P k.
 Proof. intros H; apply check_Panics in H. now apply panic_only_when_checks_pass. Qed.
